@@ -244,6 +244,103 @@ static void pedersen_cases(const Grp &G, size_t nmax, const std::vector<size_t> 
 	}
 }
 
+
+// ---- cut-and-choose stack equality (VTMF encoding), one iteration per proof (TMCG_SecurityLevel = 1) so that every
+//      iteration is a record: prover round (coins -> commitment, response) and verifier round (message -> verdict) -------------
+static std::string tok_vst(const TMCG_Stack<VTMF_Card> &s) { std::string r; for (size_t i = 0; i < s.size(); i++) { if (i) r += ";"; r += hx(s[i].c_1) + "," + hx(s[i].c_2); } return r.empty() ? "_" : r; }
+static std::string tok_vsec(const TMCG_StackSecret<VTMF_CardSecret> &s) { std::string r; for (size_t i = 0; i < s.size(); i++) { if (i) r += ";"; r += hx((unsigned long)s[i].first) + "," + hx(s[i].second.r); } return r.empty() ? "_" : r; }
+static std::string stack_hash(const TMCG_Stack<VTMF_Card> &s3) { std::ostringstream ost; ost << s3 << std::endl; Z f; bool was = hash_logging(); hash_logging() = false; tmcg_mpz_shash(f, ost.str()); hash_logging() = was; return f.h(); }
+static bool secret_sane(const TMCG_StackSecret<VTMF_CardSecret> &ss, size_t n, mpz_srcptr q) {
+	if (ss.size() != n) return false; std::vector<bool> seen(n, false);
+	for (size_t i = 0; i < n; i++) { if (ss[i].first >= n || seen[ss[i].first]) return false; seen[ss[i].first] = true; if (mpz_sgn(ss[i].second.r) < 0 || mpz_cmp(ss[i].second.r, q) >= 0) return false; }
+	return true;
+}
+static void cutchoose_cases(V *vp, V *vv, size_t n, bool cyclic, unsigned reps) {
+	SchindelhauerTMCG tmcg(1, 2, 6);
+	TMCG_Stack<VTMF_Card> s, s2;
+	for (size_t i = 0; i < n; i++) { VTMF_Card c; tmcg.TMCG_CreateOpenCard(c, vp, gen().below(32)); if (gen().coin()) { VTMF_Card cc; VTMF_CardSecret cs; tmcg.TMCG_CreateCardSecret(cs, vp); tmcg.TMCG_MaskCard(c, cc, cs, vp); c = cc; } s.push(c); }
+	TMCG_StackSecret<VTMF_CardSecret> ss; tmcg.TMCG_CreateStackSecret(ss, cyclic, n, vp); tmcg.TMCG_MixStack(s, s2, ss, vp);
+	auto head = [&](Rec &r) -> Rec & { return r.z(vp->p).z(vp->q).z(vp->g).z(vp->h); };
+	for (unsigned rep = 0; rep < reps; rep++) {
+		unsigned bit = gen().below(2);
+		Z com; TMCG_StackSecret<VTMF_CardSecret> resp; std::string coins;
+		{ Capture cap; std::stringstream in("1\n" + std::to_string(bit) + "\n"), out;
+		  tmcg.TMCG_ProveStackEquality(s, s2, ss, cyclic, vp, in, out);
+		  coins = xb(coin_log().data(), coin_log().size());
+		  out >> com.v; out >> resp; }
+		auto table = [&](const TMCG_StackSecret<VTMF_CardSecret> &r, unsigned b) -> std::string {
+			if (!secret_sane(r, n, vp->q)) return "_";
+			TMCG_Stack<VTMF_Card> s4; tmcg.TMCG_MixStack(b ? s2 : s, s4, r, vp, false); return tok_vst(s4) + "=" + stack_hash(s4); };
+		if (!dynamic_cast<BarnettSmartVTMF_dlog_GroupQR *>(vp))   // GroupQR draws its masking values differently (srandomb of E_size bits): not modelled
+		{ Rec r("ccp"); head(r).d(cyclic).t(tok_vst(s2)).t(tok_vsec(ss)).t(coins).d(bit).t(table(resp, bit)).t(com.h() + "/" + tok_vsec(resp)); }
+		auto verify = [&](mpz_srcptr c, const TMCG_StackSecret<VTMF_CardSecret> &r, unsigned b, bool cyc) {
+			std::ostringstream msg; msg << c << std::endl << r << std::endl;
+			script_bytes(std::vector<unsigned char>(1, (unsigned char)b));
+			std::stringstream in(msg.str()), out; int ret;
+			try { ret = tmcg.TMCG_VerifyStackEquality(s, s2, cyc, vv, in, out) ? 1 : 0; } catch (std::exception &) { ret = -1; }
+			coin_script().clear();
+			Rec rc("ccv"); head(rc).t(tok_vst(s)).t(tok_vst(s2)).d(cyc).d(b).z(c).t(tok_vsec(r)).t(table(r, b)).t(ret == 1 ? "1" : ret == 0 ? "0" : "T");
+			return ret; };
+		int ret = verify(com, resp, bit, cyclic);
+		if (ret != 1) propfail(cyclic ? "cutchoose-cyclic-rejected" : "cutchoose-rejected", "TMCG_VerifyStackEquality(VTMF) rejects an honest iteration: n=" + std::to_string(n) + " bit=" + std::to_string(bit) + " " + gdesc(vp));
+		// wrong messages (model comparison only)
+		{ Z c2(com); mpz_add_ui(c2, c2, 1); verify(c2, resp, bit, cyclic); }
+		verify(com, resp, 1 - bit, cyclic);
+		if (!cyclic) verify(com, resp, bit, true);                            // a general permutation checked as a rotation
+		{ TMCG_StackSecret<VTMF_CardSecret> r2 = resp; size_t i = gen().below(n); mpz_add(r2[i].second.r, r2[i].second.r, vp->q); verify(com, r2, bit, cyclic); }
+		{ TMCG_StackSecret<VTMF_CardSecret> r2 = resp; size_t i = gen().below(n); mpz_sub(r2[i].second.r, r2[i].second.r, vp->q); verify(com, r2, bit, cyclic); }
+		{ TMCG_StackSecret<VTMF_CardSecret> r2 = resp; size_t i = gen().below(n); mpz_add_ui(r2[i].second.r, r2[i].second.r, 1); mpz_mod(r2[i].second.r, r2[i].second.r, vp->q); verify(com, r2, bit, cyclic); }
+		if (n > 1) { TMCG_StackSecret<VTMF_CardSecret> r2; for (size_t i = 0; i + 1 < n; i++) r2.push(resp[i].first, resp[i].second); verify(com, r2, bit, cyclic); }   // wrong size (and, usually, no bijection)
+		if (n > 1) { TMCG_StackSecret<VTMF_CardSecret> r2 = resp; std::swap(r2[0].first, r2[n - 1].first); verify(com, r2, bit, cyclic); }
+		if (n > 1) { TMCG_StackSecret<VTMF_CardSecret> r2 = resp; r2[0].first = r2[1].first; verify(com, r2, bit, cyclic); }               // not a bijection
+	}
+}
+
+
+// ---- Groth's shuffle of known content, non-interactive: prover (coins -> argument) and verifier (argument -> verdict) records -----
+static void skc_cases(const Grp &G, unsigned long le, size_t n, unsigned reps) {
+	Z h; { Z x; do gen_below(x, G.q); while (!mpz_sgn(x)); mpz_powm(h, G.g, x, G.p); }
+	PedersenCommitmentScheme com0(n + gen().below(2), G.p, G.q, G.k, h, G.pbits, G.qbits);   // the key may be longer than the vector
+	std::stringstream pb; com0.PublishGroup(pb); GrothSKC skc(com0.g.size(), pb, le, G.pbits, G.qbits);
+	std::string gs = tok_list(skc.com->g);
+	auto head = [&](Rec &r) -> Rec & { return r.z(skc.com->p).z(skc.com->q).z(skc.com->h).t(gs).u(2 * le); };
+	for (unsigned rep = 0; rep < reps; rep++) {
+		std::vector<Z> ms(n); std::vector<mpz_ptr> m, mperm(n);
+		for (size_t i = 0; i < n; i++) { gen_below(ms[i], G.q); if (gen().below(10) == 0) mpz_set_ui(ms[i], gen().below(3)); m.push_back(ms[i]); }
+		std::vector<size_t> pi(n); for (size_t i = 0; i < n; i++) pi[i] = i; for (size_t i = n; i > 1; i--) std::swap(pi[i - 1], pi[gen().below(i)]);
+		for (size_t i = 0; i < n; i++) mperm[i] = m[pi[i]];
+		Z c, r; skc.com->Commit(c, r, mperm);
+		std::string pit; for (size_t i = 0; i < n; i++) { if (i) pit += ","; pit += std::to_string(pi[i]); }
+		std::string mt = tok_list(m), proof, rawt, tbl;
+		{ Capture cap; std::stringstream out; skc.Prove_noninteractive(pi, r, m, out); proof = out.str();
+		  std::vector<Z> raws = cap.raws(skc.com->q); for (Z &x : raws) { if (!rawt.empty()) rawt += ","; rawt += x.h(); } tbl = cap.table(); }
+		// parse the argument: c_d c_Delta c_a f_1..f_n z fD_1..fD_{n-1} zD
+		std::vector<Z> vals; { std::stringstream in(proof); for (size_t i = 0; i < 3 + n + 1 + (n - 1) + 1; i++) { Z v; in >> v.v; vals.push_back(v); } }
+		auto msg_tok = [&](const std::vector<Z> &v) { std::string f, fd; for (size_t i = 0; i < n; i++) { if (i) f += ","; f += v[3 + i].h(); }
+			for (size_t i = 0; i + 1 < n; i++) { if (i) fd += ","; fd += v[3 + n + 1 + i].h(); }
+			return v[0].h() + "/" + v[1].h() + "/" + v[2].h() + "/" + f + "/" + v[3 + n].h() + "/" + (fd.empty() ? "_" : fd) + "/" + v[3 + n + n].h(); };
+		{ Rec rc("skp"); head(rc).t(pit).z(r).t(mt).t(rawt).t(tbl).t(msg_tok(vals)); }
+		auto verify = [&](mpz_srcptr cc, const std::vector<Z> &v, bool opt, bool good) {
+			std::string text; for (size_t i = 0; i < v.size(); i++) { text += str62(v[i]); if (i + 1 < v.size() || good) text += "\n"; }
+			Capture cap; std::stringstream in(text); int ret;
+			try { ret = skc.Verify_noninteractive(cc, m, in, opt) ? 1 : 0; } catch (std::exception &) { ret = -1; }
+			Z alpha; if (!coin_log().empty()) { mpz_import(alpha, coin_log().size(), 1, 1, 1, 0, coin_log().data()); mpz_tdiv_r_2exp(alpha, alpha, le); }
+			Rec rc("skv"); head(rc).z(cc).t(mt).d(good).t(msg_tok(v)).d(opt).z(alpha).t(cap.table()).t(vd(ret)); return ret; };
+		for (int opt = 0; opt < 2; opt++)
+			if (verify(c, vals, opt, true) != 1) propfail("skc-noninteractive-rejected", "GrothSKC::Verify_noninteractive(optimizations=" + std::to_string(opt) + ") rejects an honest argument, n=" + std::to_string(n) + " p=" + hx(skc.com->p));
+		// wrong arguments (model comparison only): one value changed / out of range / negative, other commitment, truncated stream
+		for (int k = 0; k < 4; k++) { std::vector<Z> w(vals); size_t i = gen().below(w.size());
+			switch (gen().below(5)) { case 0: mpz_add_ui(w[i], w[i], 1); break; case 1: mpz_add(w[i], w[i], skc.com->q); break; case 2: mpz_sub(w[i], w[i], skc.com->q); break;
+				case 3: mpz_set_ui(w[i], gen().below(2)); break; case 4: mpz_neg(w[i], w[i]); break; }
+			verify(c, w, gen().coin(), true); }
+		// the range rules 0 <= f_i, z, f_Delta_i, z_Delta < q: the same residue outside the range, both verifier variants
+		for (size_t i : { (size_t)(3 + gen().below(n)), (size_t)(3 + n), (size_t)(3 + n + 1 + gen().below(n - 1)), (size_t)(3 + 2 * n) })
+			for (int sg = 0; sg < 2; sg++) for (int opt = 0; opt < 2; opt++) { std::vector<Z> w(vals); if (sg) mpz_add(w[i], w[i], skc.com->q); else mpz_sub(w[i], w[i], skc.com->q); verify(c, w, opt, true); }
+		{ Z c2; gen_below(c2, G.p); verify(c2, vals, gen().coin(), true); }
+		verify(c, vals, false, false);
+	}
+}
+
 static void run_group(const Grp &G, unsigned k, unsigned n) {
 	std::vector<V *> pl;
 	for (unsigned i = 0; i < k; i++) { V *v = mk(G); v->KeyGenerationProtocol_GenerateKey(); pl.push_back(v); }
@@ -257,6 +354,7 @@ static void run_group(const Grp &G, unsigned k, unsigned n) {
 		keyi_cases(v, n); cp_cases(v, n); or_cases(v, n); mask_cases(v, others, n);
 		if (i + 1 < k) continue;
 	}
+	for (size_t cn : { (size_t)1, (size_t)2, (size_t)3, (size_t)(4 + gen().below(4)) }) { cutchoose_cases(pl[0], pl[1], cn, false, n); if (cn >= 2) cutchoose_cases(pl[1], pl[0], cn, true, n); }
 	// a key added after Finalize: h changes but its table is stale -> the table path throws (records only)
 	if (!G.qr) { V *v = pl[0]; V *e = mk(G); e->KeyGenerationProtocol_GenerateKey(); std::stringstream s; e->KeyGenerationProtocol_PublishKey(s);
 		if (mpz_cmp(e->h_i, v->h_i) && v->KeyGenerationProtocol_UpdateKey(s)) {
@@ -273,6 +371,9 @@ static int vtmf_main(Args &A) {
 	{ // Pedersen: message counts around TMCG_MAX_FPOWM_N = 256 (generators from index 256 on have no table)
 	  Grp P1 = gen_group(24, 12); pedersen_cases(P1, 258, T ? std::vector<size_t>{ 1, 2, 7, 255, 256, 257, 258 } : std::vector<size_t>{ 1, 3, 256, 257 });
 	  Grp P2 = gen_group(64, 32); pedersen_cases(P2, T ? 300 : 258, T ? std::vector<size_t>{ 5, 257, 300 } : std::vector<size_t>{ 2, 258 }); }
+	{ // shuffle of known content on small groups; l_e_nizk = 2 l_e bits of challenge, |q| > 2 l_e so that e is invertible unless it is zero
+	  Grp S1 = gen_group(64, 40); for (size_t sn : { (size_t)2, (size_t)3, (size_t)5 }) skc_cases(S1, 16, sn, T ? 6 : 2);
+	  Grp S2 = gen_group(96, 48); skc_cases(S2, 20, T ? 8 : 4, T ? 4 : 1); }
 	for (unsigned rd = 0; rd < rounds; rd++) {
 		for (auto &sz : sizes) { Grp G = gen_group(sz.first, sz.second); run_group(G, 2 + gen().below(2), n); }
 		Grp Q = gen_group_qr(rd % 2 ? 32 : 16, rd % 2 ? 16 : 8); run_group(Q, 2, n);
